@@ -97,6 +97,8 @@ func genC06(t *rapid.T, tier string) (*World, any) {
 	p := &C06Params{}
 	feat := map[string]bool{}
 	endings := []string{"s", "es", "t", "x", "tes", "u", "e", "le"}
+	// flags of the including file do not change which entries are contributed
+	iflag := chance(t, 20, "iflag")
 	// the include file F
 	defs := map[string]string{}
 	var fLines []string
@@ -118,6 +120,21 @@ func genC06(t *rapid.T, tier string) (*World, any) {
 		case 1:
 			fLines = append(fLines, "##! note "+pick(t, endings, "cend"))
 			feat["comment"] = true
+		case 3:
+			if iflag && len(fEntries) > 0 && chance(t, 50, "casevar") {
+				// the same word in another spelling of upper / lower case is a different entry. Only under the i flag: without it
+				// the compiler's clean-up pass loses one of the spellings (`a` + `A` -> `[Aa]` -> `(?i:A)` -> `A`), which is the
+				// business of the language-equivalence property, not of include-except
+				e := fEntries[drawInt(t, 0, len(fEntries)-1, "casevar-of")]
+				v := strings.ToUpper(e[:1]) + e[1:]
+				if v != e && !strings.Contains(e, "{{") {
+					fLines = append(fLines, v)
+					fEntries = append(fEntries, v)
+					feat["case-variant"] = true
+					continue
+				}
+			}
+			fallthrough
 		case 2:
 			if len(fEntries) > 0 {
 				// duplicate
@@ -346,6 +363,10 @@ func genC06(t *rapid.T, tier string) (*World, any) {
 	directive += pairText
 	var pre, post []string
 	extra := []string{}
+	if iflag {
+		pre = append(pre, "##!+ i")
+		feat["i-flag"] = true
+	}
 	if chance(t, 40, "extra") {
 		e := "yy" + drawWord(t, 1, 3, "extra-w")
 		pre = append(pre, e)
@@ -505,14 +526,22 @@ func evalC06(sc *Scenario, sim *Sim) ([]Violation, bool, string) {
 		if err != nil {
 			machinery("cannot compile generated regex %q: %v", out, err)
 		}
+		// under the i flag the expression cannot tell spellings of one word apart: membership is judged on folded words there
+		// (the byte comparison with the typed-in program still sees every spelling)
+		fold := func(s string) string { return s }
+		for _, f := range p.Features {
+			if f == "i-flag" {
+				fold = strings.ToLower
+			}
+		}
 		accepted := map[string]bool{}
 		for _, o := range p.Optional {
-			accepted[o] = true
+			accepted[fold(o)] = true
 		}
 		for _, forms := range p.Expect {
 			ok := false
 			for _, f := range forms {
-				accepted[f] = true
+				accepted[fold(f)] = true
 				if re.MatchString(f) {
 					ok = true
 				}
@@ -525,7 +554,7 @@ func evalC06(sc *Scenario, sim *Sim) ([]Violation, bool, string) {
 			}
 		}
 		for _, u := range p.Universe {
-			if !accepted[u] && re.MatchString(u) {
+			if !accepted[fold(u)] && re.MatchString(u) {
 				viol = append(viol, Violation{Prop: "C06", Oracle: "membership", Sig: "C06/membership/extra/" + p.Kind + "/" + feats,
 					Msg:    fmt.Sprintf("word %q must not be contributed (excluded, or not a legal rewrite) but the generated regex matches it (schedule %d)", u, pi),
 					Detail: fmt.Sprintf("program:\n%s\noutput: %q\nfiles: %s", p.Prog, out, worldText(sc.World))})
